@@ -38,6 +38,10 @@ THEOREMS = [
     "C08.roundtrip",
     "C08.roundtrip_create_table",
     "C08.evalCallT_extends",
+    "C08.roundtrip_container",
+    "C08.render_container",
+    "C08.syntax_container",
+    "C08.option_text_verbatim",
 ]
 PARTIAL = {
     "C08.roundtrip_create_table": "evalCallT (renderOp c o) = some (normalizeT o) is proved for every directive including create_table "
@@ -47,7 +51,8 @@ PARTIAL = {
     "normalizeT: the inline constraints of create_table come back in the order of their rendered text (sorted() in _add_table: same set, other "
     "clause order), falsy schema / comment / type_ / constraint name are None, a PK without columns is not rendered; existing_server_default next "
     "to a new server_default is erased, which MSSQL's invoke reads (finding C08-N5).  Outside the model: table prefixes= / info=, method-chain "
-    "fragments, postgresql exclude constraints.  That evalCallT commutes with canon on opaque fragments is not proved: the driver runs "
+    "fragments, postgresql exclude constraints.  Containers: C08.roundtrip_container / C08.syntax_container cover ModifyTableOps rendered as "
+    "plain statements and as a with op.batch_alter_table(...) block (header + members, in order).  That evalCallT commutes with canon on opaque fragments is not proved: the driver runs "
     "parse . evalCallT on the implementation's own text (Spec.Render.evalTop) on every run",
 }
 TRUSTED = [
